@@ -9,6 +9,7 @@ From M Require NlSpec.
 From M Require UnitSpec.
 From M Require HdrSound.
 From M Require UnitSound.
+From M Require UnitFull.
 From M Require DecSpec.
 From M Require HdrSound.
 From M Require HdrSpec.
@@ -18,6 +19,7 @@ From M Require ListWs.
 From M Require MoreSpecs.
 From M Require NumList.
 From M Require SimpleSpecs.
+From M Require UnitSpec.
 Import ListNotations.
 
 Module T_decimal_complete. Import DecSpec. Local Open Scope bool_scope. Local Open Scope Z_scope.
@@ -261,4 +263,22 @@ Theorem C13_unit_sound_common :
 Proof. exact (@UnitSound.unit_sound_common). Qed.
 End T_unit_sound_common.
 Definition C13_unit_sound_common := @T_unit_sound_common.C13_unit_sound_common.
+
+Module T_unit_complete_full. Import UnitFull. Local Open Scope bool_scope. Local Open Scope Z_scope.
+Import LexModel LexBounds DecSpec MoreSpecs NumList SimpleSpecs ListWs HdrSpec UnitSpec. Local Open Scope Z_scope.
+Local Open Scope Z_scope.
+Theorem C13_unit_complete_full :
+  forall lead m1 ms (q:bool) ws1 items rest hdr l,
+  Mnem m1 -> Forall Mnem ms -> ws1 <> [] -> all isws ws1 -> Forall item_ok items -> items <> [] -> first_tight items -> is_term rest ->
+  hdr = header_text lead m1 ms ++ (if q then [63%N] else []) ->
+  l = hdr ++ ws1 ++ list_text items ++ rest ->
+  let u := detect_unit l in
+  ty (u_hdr u) = (if q then T_COMPOUND_QUERY_HDR else T_COMPOUND_HDR) /\ ptr (u_hdr u) = 0 /\ len (u_hdr u) = Z.of_nat (length hdr) /\
+  ptr (u_data u) = Z.of_nat (length hdr) + Z.of_nat (length ws1) /\ len (u_data u) = Z.of_nat (length (list_text items)) /\
+  u_n u = Z.of_nat (length items) /\
+  u_consumed u = Z.of_nat (length hdr) + Z.of_nat (length ws1) + Z.of_nat (length (list_text items)) + (match rest with [] => 0 | _ => 1 end) /\
+  u_term u = (match rest with [] => TERM_NONE | c :: _ => if (c =? 59)%N then TERM_SEMICOLON else TERM_NL end).
+Proof. exact (@UnitFull.unit_complete_full). Qed.
+End T_unit_complete_full.
+Definition C13_unit_complete_full := @T_unit_complete_full.C13_unit_complete_full.
 
